@@ -327,7 +327,8 @@ def only_keys(c, prefixes):
 C03_THEOREMS = ["Ctl.hAdjust_lands", "Ctl.hIter_success_at_xend", "Ctl.hLoop_success_at_xend", "Ctl.dopri5Params_guard",
                 "Ctl.dop853Params_guard", "Ctl.hIter_cases", "Ctl.hSolve_protocol", "Ctl.rk23Adjust_lands", "Ctl.rk23Loop_success_at_xend", "Ctl.rk4Loop_success_at_xend", "RadauCtl.pass_land", "RadauCtl.run_success_at_xend", "RadauCtl.start_land", "BdfCtl.limits_spec", "BdfCtl.pass_land", "BdfCtl.run_success_at_xend", "BdfCtl.start_inv", "rowsum_rk4", "rowsum_rk23", "rowsum_dopri5", "rowsum_dop853",
                 "Ctl.c03_success_is_xend_hairer", "Ctl.rk23Loop_success_exact", "Ctl.rk4Loop_success_exact", "RadauCtl.run_success_exact",
-                "SolOutM.runMode2_forward", "SolOutM.outputMode2_forward", "SolOutM.outputMode2_initial"]
+                "SolOutM.runMode2_forward", "SolOutM.outputMode2_forward", "SolOutM.outputMode2_initial",
+                "SolOutM.runMode2_backward", "SolOutM.outputMode2_backward", "RadauCtl.pass_rinv", "RadauCtl.run_rinv", "RadauCtl.start_rinv"]
 
 
 def c03(c):
@@ -341,7 +342,7 @@ def c03(c):
         generic_monitor(c, "protocol_check", ["protocol-check", c.seed, 120 if c.tier == "quick" else 3000], "pr")
     only_keys(c, ("c03",))
     c.partial = ["RK23/RK4 landing and the 'to rounding' statements in binary64 are covered by the bit-exact co-simulation and the interval monitor, not by a theorem",
-                 "Radau and BDF control loops are not modelled in Lean (monitor only)",
+                 "Radau and BDF: the theorems are about the control models (RadauCtl / BdfCtl, tied to the code by the X-radau / X-bdf trace co-simulation), with the numeric kernel as an arbitrary oracle",
                  "event-function evaluation times: monitor (Prob.times) only"]
 
 
@@ -368,7 +369,8 @@ def c04(c):
 
 
 C11_THEOREMS = ["Ctl.hSolve_protocol", "Ctl.rk23Solve_inv", "Ctl.rk4Solve_inv", "Ctl.hNextStep_le_hmax",
-                "Ctl.hIter_budget_irrelevant", "Ctl.startMeter_first_step", "BdfCtl.limits_le_hmax"]
+                "Ctl.hIter_budget_irrelevant", "Ctl.startMeter_first_step", "BdfCtl.limits_le_hmax",
+                "HinitBound.hinit_le_hmax", "Ctl.startMeter_auto_le_hmax", "RadauCtl.c11_radau_steps", "RadauCtl.pass_rinv", "RadauCtl.params_ok"]
 
 
 def c11(c):
@@ -382,8 +384,8 @@ def c11(c):
         generic_monitor(c, "options_check", ["options-check", c.seed, 60 if c.tier == "quick" else 1500], "op")
         generic_monitor(c, "interval_check", ["interval-check", c.seed, 60 if c.tier == "quick" else 1500], "iv")
     only_keys(c, ("c11",))
-    c.partial = ["|h| ≤ h_max for the *first* step relies on hinit's min(…, hmax) (translated, co-simulated; no separate theorem)",
-                 "Radau: |h| ≤ h_max is monitored only (BDF's limiter: BdfCtl.limits_le_hmax)"]
+    c.partial = ["hinit_le_hmax and c11_radau_steps assume of powf only its sign (≥ 0 at base ≥ 0) and monotonicity at base ≥ 1 (PowOK); they are exact-arithmetic statements about the translated hinit and the Radau control model (tied by X-solve / X-radau)",
+                 "c11_radau_steps assumes 1.01·safety ≤ 1 and 1.01·scale_min ≤ 1 (true of the defaults 0.9 / 0.2, which solve_ivp always uses): with safety > 1/1.01 a rejected landing step could be repeated with 0.99·h > h_max (low-level API only)"]
 
 
 C12_THEOREMS = ["Ctl.afterCb_passive", "Ctl.hFinish_passive", "Ctl.hAccepted_passive", "Ctl.hIter_passive", "Ctl.hLoop_passive",
